@@ -1,24 +1,62 @@
-(* C19 model driver: same line protocol as harness/drivers/c19_driver.c *)
+(* C19 model driver: same line protocol as harness/drivers/c19_driver.c.
+   init ns <t> <n> <fwd> [<base_sec> <base_nsec>] | init fast <t> <n> <fwd> <tick_freq> [<tick_base>]
+   check/update <elapsed> : explicit-timestamp entry points
+   cu/cfu <now> [<step>]  : the clock-reading entry points; the scenario clock is set to base + now and advances by
+                            step at every read; with a step the result carries the reading the next read would get *)
+type ctl = NoCtl | Ns of nsctl * z | Fast of fastctl * z      (* controller, absolute clock value at which now = 0 *)
+
+let int_part (s : string) : string =            (* (int64_t)tick_freq of a non-negative double: truncation *)
+  match String.index_opt s '.' with Some i -> if i = 0 then "0" else String.sub s 0 i | None -> s
+
 let handle (lines : string list) : unit =
-  let st = ref None in
+  let st = ref NoCtl in
+  let zero = z_of_int 0 in
   List.iter (fun l ->
     match words l with
     | "init" :: k :: t :: n :: f :: rest ->
-      let r = if k = "ns" then init (z_of_string t) (nat_of_int (int_of_string n)) (z_of_string f)
-        else init_fast (match rest with d :: _ -> z_of_string d | [] -> z_of_int 1)
-               (z_of_string t) (nat_of_int (int_of_string n)) (z_of_string f) in
-      st := r;
-      print_endline (match r with Some _ -> "init ok" | None -> "init fail")
-    | [op; a] ->
+      let tz = z_of_string t and nn = nat_of_int (int_of_string n) and fz = z_of_string f in
+      if k = "ns" then begin
+        let base = match rest with
+          | bs :: bn :: _ -> Z.add (Z.mul (z_of_string bs) (z_of_string "1000000000")) (z_of_string bn)
+          | _ -> z_of_string "5000000000000" in
+        match ns_init { c_next = base; c_step = zero } tz nn fz with
+        | (Some c, _) -> st := Ns (c, base); print_endline "init ok"
+        | (None, _) -> st := NoCtl; print_endline "init fail"
+      end else begin
+        let fq = match rest with d :: _ -> z_of_string (int_part d) | [] -> z_of_int 1 in
+        let base = match rest with _ :: tb :: _ -> z_of_string tb | _ -> z_of_string "777000000000" in
+        match fast_init { c_next = base; c_step = zero } fq tz nn fz with
+        | (Some c, _) -> st := Fast (c, base); print_endline "init ok"
+        | (None, _) -> st := NoCtl; print_endline "init fail"
+      end
+    | op :: a :: rest ->
       (match !st with
-       | None -> print_endline "noctl"
-       | Some s ->
+       | NoCtl -> print_endline "noctl"
+       | _ ->
          let now = z_of_string a in
+         let with_step = rest <> [] in
+         let stp = match rest with s :: _ -> z_of_string s | [] -> zero in
+         let fcof = function Ns (c, _) -> c.ns_fc | Fast (c, _) -> c.ff_fc | NoCtl -> assert false in
+         let setfc s = (match !st with
+           | Ns (c, b) -> st := Ns ({ c with ns_fc = s }, b)
+           | Fast (c, b) -> st := Fast ({ c with ff_fc = s }, b)
+           | NoCtl -> ()) in
+         let out b k base = if with_step then print_endline (string_of_bool01 b ^ " " ^ string_of_z (Z.sub k.c_next base))
+                            else print_endline (string_of_bool01 b) in
          (match op with
-          | "check" -> print_endline (string_of_bool01 (check s now))
-          | "update" -> st := Some (update s now); print_endline "-"
-          | "cu" -> let (s', b) = check_and_update s now in st := Some s'; print_endline (string_of_bool01 b)
-          | "cfu" -> let (s', b) = check_and_force_update s now in st := Some s'; print_endline (string_of_bool01 b)
+          | "check" -> print_endline (string_of_bool01 (check (fcof !st) now))
+          | "update" -> setfc (update (fcof !st) now); print_endline "-"
+          | "cu" | "cfu" ->
+            (match !st with
+             | Ns (c, base) ->
+               let k = { c_next = Z.add base now; c_step = stp } in
+               let ((c', b), k') = if op = "cu" then ns_check_and_update c k else ns_check_and_force_update c k in
+               st := Ns (c', base); out b k' base
+             | Fast (c, base) ->
+               let k = { c_next = Z.add base now; c_step = stp } in
+               let ((c', b), k') = if op = "cu" then fast_check_and_update c k else fast_check_and_force_update c k in
+               st := Fast (c', base); out b k' base
+             | NoCtl -> ())
           | _ -> print_endline "?"))
     | _ -> ()) lines
 
